@@ -1,3 +1,5 @@
+#include <iomanip>
+#include <locale>
 // C04 - instances: construction, shape conversion, indexing, pointer view, streaming (x,y,z,w order)
 #pragma once
 #include "C04_ops3.h"
@@ -64,10 +66,28 @@ void index_ptr(const T *p, int, pbt::Ctx &)
     PBT_ASSERT_MSG(same(v.padding_, p[14]), "padding written");
 }
 template <class T, class S>
-void stream_v(const T *p, int, pbt::Ctx &)
+void stream_v(const T *p, int mode, pbt::Ctx &ctx)
 {
   auto v = mk<T, S>(p, p[14]);
   std::ostringstream got, want;
+  // the stream's own state decides the formatting: flags, precision, width, fill and its LOCALE (which need not be the
+  // global one - a file imbued with the classic locale in an application that runs under a localised global locale)
+  if (mode % 4 == 1 || mode % 4 == 3) {
+    struct Punct : std::numpunct<char>
+    {
+      char do_decimal_point() const override { return ','; }
+      char do_thousands_sep() const override { return '.'; }
+      std::string do_grouping() const override { return "\3"; }
+    };
+    const std::locale loc(std::locale::classic(), new Punct);
+    got.imbue(loc);
+    want.imbue(loc);
+    ctx.label("stream: imbued locale differs from the global one");
+  }
+  if (mode % 4 >= 2) {
+    got << std::showpos << std::setprecision(3 + mode % 5);
+    want << std::showpos << std::setprecision(3 + mode % 5);
+  }
   got << v;
   want << "(";
   for (int i = 0; i < S::N; ++i) {
